@@ -5,6 +5,8 @@ package sysx
 
 import (
 	"github.com/ryogrid/SamehadaDB/lib/catalog"
+	"github.com/ryogrid/SamehadaDB/lib/common"
+	"github.com/ryogrid/SamehadaDB/lib/execution/plans"
 	"github.com/ryogrid/SamehadaDB/lib/execution/executors"
 	"github.com/ryogrid/SamehadaDB/lib/execution/expression"
 	"github.com/ryogrid/SamehadaDB/lib/parser"
@@ -123,4 +125,34 @@ func Select(table string, cols []string, where *parser.BinaryOpExpression) *pars
 		qi.SelectFields = append(qi.SelectFields, &parser.SelectFieldExpression{IsAgg: false, AggType: 0, TableName: nil, ColName: sp(c)})
 	}
 	return qi
+}
+
+// ---- real instance life cycle (file-backed disk manager over the engine's file model) ----
+
+type Real struct {
+	Sdb *samehada.SamehadaDB
+	*DB
+}
+
+// OpenReal runs the real samehada.NewSamehadaDB start-up path (fresh database or recovery of an existing
+// one). Background threads are never run by the engine; natively they are stopped at once.
+func OpenReal(name string, memKB int) *Real {
+	common.TempSuppressOnMemStorage = true
+	sdb := samehada.NewSamehadaDB(name, memKB)
+	sdb.GetSamehadaInstance().GetCheckpointManager().StopCheckpointTh()
+	return &Real{Sdb: sdb, DB: &DB{Shi: sdb.GetSamehadaInstance(), Cat: sdb.GetCatalogForTesting(), Eng: &executors.ExecutionEngine{}}}
+}
+
+// SelectAll returns every row of a table through the sequential-scan plan (no optimizer involved).
+func (db *DB) SelectAll(table string) ([]*tuple.Tuple, *schema.Schema, bool) {
+	tm := db.Cat.GetTableByName(table)
+	txn := db.Shi.GetTransactionManager().Begin(nil)
+	ctx := executors.NewExecutorContext(db.Cat, db.Shi.GetBufferPoolManager(), txn)
+	rows := db.Eng.Execute(plans.NewSeqScanPlanNode(db.Cat, tm.Schema(), nil, tm.OID()), ctx)
+	if txn.GetState() == access.ABORTED {
+		db.Shi.GetTransactionManager().Abort(db.Cat, txn)
+		return nil, tm.Schema(), true
+	}
+	db.Shi.GetTransactionManager().Commit(db.Cat, txn)
+	return rows, tm.Schema(), false
 }
